@@ -247,6 +247,43 @@ def check(ctx, rep):
             rep.ok("R-UNITS", key, sb.where(), "the empty result is returned only when the unit has no identifiers")
         else:
             rep.bad("R-UNITS", "R-UNITS:" + key, sb.where(), "%s() is not `ids.%s()` for every non-empty id list (returns %s; the empty string is not confined to units without identifiers): units with few identifiers report an empty %s, which both codecs write" % (fn.split("::")[-1], which, repr(ret)[:120], fn.split("::")[-1]))
+    # the unit reader takes every unit character: its loop is left only at the end of the input, at the first byte that is no unit
+    # character, or on a read error - any other way out (a length bound, a character count) cuts identifiers short unless the
+    # bound lies above the longest identifier of the table
+    pu = prog.get("haystack::encoding::zinc::decode::scalar::number::parse_unit")
+    if pu is None:
+        rep.gap("parse_unit", "-", "function not found")
+    else:
+        maxlen = max((len(i.encode("utf-8")) for uu in units.values() for i in uu["ids"]), default=0)
+        loops = [scc for scc in pu.sccs() if len(scc) > 1 and any(pu.term(x)["k"] == "call" and strip_generics(mir.callee_name(pu.term(x)) or "").endswith("Vec::push") for x in scc)]
+        if len(loops) != 1:
+            rep.gap("parse_unit:loop", pu.where(), "expected one loop pushing bytes, found %d" % len(loops))
+        else:
+            odd = []
+            for x in sorted(loops[0]):
+                t2 = pu.term(x)
+                if t2["k"] != "switch" or all(y in loops[0] for y in pu.succ(x)):
+                    continue
+                d = G.describe(pu, t2["op"])
+                rd = repr(d)
+                if re.fullmatch(r"_1\*\.is_eof", rd) or (d.kind == "call" and strip_generics(d.v).endswith("number::is_unit_char")) or "Try>::branch" in rd:
+                    continue
+                if d.kind == "unop" and d.args and (re.fullmatch(r"_1\*\.is_eof", repr(d.args[0])) or (d.args[0].kind == "call" and strip_generics(d.args[0].v).endswith("number::is_unit_char"))):
+                    continue
+                bound = None
+                if d.kind == "binop" and d.v in ("Lt", "Le", "Gt", "Ge") and len(d.args) == 2:
+                    cs = [a for a in d.args if a.kind == "const" and isinstance(a.v, int)]
+                    ls = [a for a in d.args if "len(" in repr(a)]
+                    if len(cs) == 1 and len(ls) == 1:
+                        bound = cs[0].v - (1 if (d.v in ("Lt", "Gt")) else 0)
+                if bound is not None and bound >= maxlen:
+                    continue
+                odd.append((x, rd, bound))
+            if odd:
+                x, rd, bound = odd[0]
+                rep.bad("R-UNITS", "R-UNITS:parse_unit:takes-every-unit-char", pu.where(x), "the unit reader also stops on %s%s: identifiers are cut short and not found (longest identifier of the table: %d bytes)" % (rd[:100], " (at most %d bytes are read)" % bound if bound is not None else "", maxlen))
+            else:
+                rep.ok("R-UNITS", "parse_unit:takes-every-unit-char", pu.where(), "the loop is left only at end of input, at a byte outside the unit class or on a read error (longest identifier %d bytes)" % maxlen)
     # 5/6 who calls what
     gu = prog.get("haystack::units::get_unit")
     if gu is None:
